@@ -1,5 +1,10 @@
 import Blue.Proofs.FileRefs
 import Blue.Proofs.StoreCrash
+import Blue.Proofs.Orphans
+import Blue.Proofs.Verifier
+import Blue.Proofs.VerifierCrash
+import Blue.Proofs.FileLink
+import Blue.Proofs.ConstsTieC08
 /-! # Property C08 — no needed file is ever removed; clean-up removes only unreferenced files
 
 Property theorems only.  `Blue.FileRefs` is the transition system of
@@ -10,10 +15,15 @@ the directory listings of the real store after every version install.  The crash
 compactions, under both persistence models, every SST the durable manifest names is present and
 whole (that is what makes the reopen succeed).
 
-Checked per run rather than proved: that a verifier pass removes only names from `trash/` and
-fully processed manifest fragments, and that the store reopens with unchanged contents after
-every pass (oracle on the real directory).  A reader's lazy cursor does not hold its
-`VersionRef` (D-5), so `held_files_present` does not cover files a cursor opens later — see C07. -/
+The offline verifier (`lsmtk/src/verifier.rs`) is `Blue.Verifier`: one pass is the list of its
+durable actions (unlink a fragment, unlink a trash entry, the two edits of `verify/MANIFEST`) over
+an abstract directory; a crash is a cut of that list, a restart a new pass from what is on disk.
+The reopen-time clean-up (`cleanup_orphans`) is `Blue.Orphans`.  Both are run against the real code
+on the dumped directory of every real pass / reopen, against the traced system calls of passes
+run under strace, and against every crash image of those traces (see `harness/src/c08.rs`).
+
+A reader's lazy cursor does not hold its `VersionRef` (D-5), so `live_files_stay` does not cover
+files a cursor opens later — see C07. -/
 namespace Blue.Props.C08
 open Blue.FileRefs
 
@@ -50,8 +60,181 @@ example :
     let s2 := step s1 (.release 0)
     s1.sst = [1, 2, 3] ∧ s1.trash = [] ∧ s2.sst = [2, 3] ∧ s2.trash = [1] := by decide
 
+/-! ## linking a compaction's outputs while a reader holds a file of the same name
+
+`Blue.FileLink`: per-file reference counts, `sst/` and `trash/` under the events of one
+compaction (`link` an output, `ref` by the version being installed, `unref` by a holder).  The
+code as it is links without taking a reference (finding `snapshot-released-between-output-link-
+and-install`): a counterexample; the repaired link (/repo commit dc44e03) takes
+one: referenced files stay in `sst/`. -/
+section FileLink
+open Blue.FileLink
+variable {G : Type} [DecidableEq G]
+
+/-- as repaired: "every referenced file is in `sst/`" is kept by the link, by a holder letting go,
+    and by a version taking references to files that are referenced already (its outputs, by the
+    link; the files it keeps) -/
+theorem linked_output_invariant (s : Blue.FileLink.St G) (x : G) (h : Blue.FileLink.Inv s) :
+    Blue.FileLink.Inv (Blue.FileLink.step true s (.link x)) ∧
+    (∀ pin, Blue.FileLink.Inv (Blue.FileLink.step pin s (.unref x))) ∧
+    (∀ pin, s.refs x > 0 → Blue.FileLink.Inv (Blue.FileLink.step pin s (.ref x))) :=
+  ⟨inv_link_pin s x h, fun pin => inv_unref pin s x h, fun pin hx => inv_ref pin s x h hx⟩
+
+/-- as repaired: whatever number `k` of the holders `x` had before the link let go before the new
+    version is installed, `x` is still referenced and in `sst/` -/
+theorem pinned_output_stays (s : Blue.FileLink.St G) (x : G) (h : Blue.FileLink.Inv s) (k : Nat) (hk : k ≤ s.refs x) :
+    let s' := Blue.FileLink.run true (Blue.FileLink.step true s (.link x)) (List.replicate k (.unref x))
+    Blue.FileLink.Inv s' ∧ s'.refs x = s.refs x + 1 - k ∧ x ∈ s'.sst :=
+  Blue.FileLink.pinned_output_stays s x h k hk
+
+/-- **as the code is** (counterexample to "no needed file is ever removed"): `x` is in `sst/` with
+    one reference that belongs to a reader's snapshot; a compaction links an output named `x`, the
+    reader lets go, the new version takes its reference — `x` is referenced, listed by the manifest
+    edit that follows, and in `trash/` -/
+theorem unpinned_output_lost (s : Blue.FileLink.St G) (x : G) (hx : x ∈ s.sst) (hn : s.refs x = 1) :
+    let s' := Blue.FileLink.step false (Blue.FileLink.step false (Blue.FileLink.step false s (.link x)) (.unref x)) (.ref x)
+    s'.refs x = 1 ∧ x ∉ s'.sst ∧ x ∈ s'.trash ∧ ¬ Blue.FileLink.Inv s' :=
+  Blue.FileLink.unpinned_output_lost s x hx hn
+
+/-- non-vacuity of the hypotheses: one file, one reference -/
+example : (1 : Nat) ∈ ({ refs := fun _ => 1, sst := [1], trash := [] } : Blue.FileLink.St Nat).sst ∧
+    Blue.FileLink.Inv ({ refs := fun x => if x = 1 then 1 else 0, sst := [1], trash := [] } : Blue.FileLink.St Nat) :=
+  ⟨List.mem_cons_self, fun x hx => by
+    by_cases h : x = 1
+    · subst h; exact List.mem_cons_self
+    · simp [h] at hx⟩
+
+end FileLink
+
+/-! ## the offline verifier -/
+section Verifier
+open Blue.Verifier Blue.Mani
+variable {A : Type}
+
+/-- **The verifier unlinks only logged trash.**  In every directory the verifier can be in — after
+    any interleaving of pass prefixes (a crash after any durable action, then a restart from what
+    is on disk) with arbitrary steps of the store that leave `verify/` alone — every unlink a pass
+    makes in `trash/` is of a name that is, at that moment, logged in `verify/` under the number of
+    a fragment whose plan names it and which passed the check (`verify_one`) against the
+    accumulator of the moment its intent was logged. -/
+theorem verifier_unlinks_only_logged_trash (C : Checker A) (d : Dir A) (h : Reach C d) (i : Nat) (x : Name)
+    (hx : (pass C d).1[i]? = some (Act.unlinkTrash x)) :
+    ∃ n es a names, (run d ((pass C d).1.take i)).vM = some n ∧ (n, es, a) ∈ (run d ((pass C d).1.take i)).done
+      ∧ plan es = some names ∧ x ∈ names ∧ (C.check a es).isSome = true :=
+  unlinks_justified C _ d (reach_justified C d h) (pass_legal C d) i x hx
+
+/-- … and a name in a plan is the trash name of a file an edit of the fragment removes and does not
+    add again itself (`7cb13e3`), or of the log an edit other than the first records in `L` -/
+theorem plan_names_recorded_removals (es : List Edit) (names : List Name) (h : plan es = some names) (x : Name) (hx : x ∈ names) :
+    (∃ e, e ∈ es ∧ ∃ r, r ∈ e.rm ∧ r ∉ e.add ∧ x = trashSst r) ∨
+    (∃ e, e ∈ es.drop 1 ∧ ∃ v k, getInfo e 76 = some v ∧ parseU64 v = some k ∧ x = trashLog k) :=
+  mem_plan es names h x hx
+
+/-- … and an intent is logged only for a fragment that is in `mani/` other than the newest one and
+    `MANIFEST`, with nothing else pending, after its check passed against the accumulator in
+    `verify/`, and with every name of its plan present in `trash/`; a fragment is unlinked only
+    under the number `M` holds; a trash entry only while its name is logged (`Legal`) -/
+theorem verifier_acts_legal (C : Checker A) (d : Dir A) :
+    LegalRun C d (pass C d).1 ∧
+    ∀ n es names o, Act.intent n es names o ∈ (pass C d).1 → (n, es) ∈ d.frags.dropLast :=
+  ⟨pass_legal C d, fun n es names o h => pass_intents_are_entries C d n es names o h⟩
+
+/-- the names the manifest state lists: the replay of `MANIFEST` -/
+def listedOf (live : List Edit) : List Name := (Blue.ManiCrash.replay maniAlgebra live).strs
+
+/-- **The verifier never removes a listed file**: no prefix of any pass (hence no step, no crash
+    state) changes `sst/` or `MANIFEST`; every file the manifest lists that was in `sst/` still is;
+    nothing appears in `trash/` or `mani/`. -/
+theorem verifier_never_removes_listed (C : Checker A) (d : Dir A) (k : Nat) :
+    (run d ((pass C d).1.take k)).sst = d.sst ∧ (run d ((pass C d).1.take k)).live = d.live ∧
+    (∀ x, x ∈ listedOf (run d ((pass C d).1.take k)).live → x ∈ d.sst → x ∈ (run d ((pass C d).1.take k)).sst) ∧
+    (run d ((pass C d).1.take k)).trash.Sublist d.trash ∧ (run d ((pass C d).1.take k)).frags.Sublist d.frags :=
+  ⟨run_sst _ d, run_live _ d, fun x _ hx => by rw [run_sst]; exact hx, run_trash_sublist _ d, run_frags_sublist _ d⟩
+
+/-- **Crash safety.**  A pass cut by a crash after any number `k` of its durable actions and then
+    restarted ends where the uninterrupted pass ends, up to the execution of a still-pending intent
+    (`finish`: what the next pass with an entry does before anything else) — same `sst/`, `MANIFEST`,
+    fragments, `trash/`, `M`, `O`.  Hypotheses: the fragments are numbered in ascending order, and
+    a `verify/` manifest without `M` logs nothing (both hold initially and are kept, `crash_keeps`). -/
+theorem verifier_crash_safe (C : Checker A) (d : Dir A) (hs : Sorted d) (hn : NoneEmpty d) (k : Nat) :
+    finish (final C (run d ((pass C d).1.take k))) = finish (final C d) :=
+  crash_converges C d hs hn k
+
+/-- … for any number of passes and crashes in a row; all the while `sst/` and `MANIFEST` are those of
+    the start and the fragments left are a suffix of the fragments there were -/
+theorem verifier_crash_safe_any_restarts (C : Checker A) (d0 d : Dir A) (hs : Sorted d0) (hn : NoneEmpty d0)
+    (h : Restarts C d0 d) :
+    finish (final C d) = finish (final C d0) ∧ Sorted d ∧ NoneEmpty d ∧ d.frags <:+ d0.frags
+      ∧ d.sst = d0.sst ∧ d.live = d0.live :=
+  restarts_converge C d0 d hs hn h
+
+/-- … and the store reopens on it with the manifest state it had, the orphan clean-up of that reopen
+    renaming nothing the state lists -/
+theorem reopen_after_verifier (C : Checker A) (d0 d : Dir A) (hs : Sorted d0) (hn : NoneEmpty d0)
+    (hchain : chainOk (fragLists d0) = true) (h : Restarts C d0 d) (sst trash : List Name) :
+    chainOk (fragLists d) = true ∧ Blue.Orphans.listed (fragLists d) = Blue.Orphans.listed (fragLists d0) ∧
+      ∀ x, x ∈ Blue.Orphans.moved sst trash (fragLists d) → x ∉ Blue.Orphans.listed (fragLists d) :=
+  cleanup_after_restarts C d0 d hs hn hchain h sst trash
+
+/-- non-vacuity: a directory whose pass logs an intent, unlinks the fragment and the file; cut after
+    the unlink of the fragment, the restart has no entry left and ends with the name still logged
+    and the file still in `trash/` — `finish` of it is where the whole pass ends -/
+example : (pass chainChecker exD).1.length = 4 ∧ (final chainChecker exD).trash = [] ∧
+    (final chainChecker (run exD ((pass chainChecker exD).1.take 2))).trash = [[120, 46, 115, 115, 116]] ∧
+    (finish (final chainChecker (run exD ((pass chainChecker exD).1.take 2)))).trash = [] :=
+  ⟨exD_pass.1, exD_whole.1, exD_cut.1, exD_cut.2.2⟩
+
+example : Sorted exD ∧ NoneEmpty exD ∧ Reach chainChecker exD :=
+  ⟨by unfold Sorted; decide, fun _ => rfl, Reach.fresh _ rfl rfl rfl⟩
+
+end Verifier
+
+/-! ## orphan clean-up on open -/
+section Orphans
+open Blue.Orphans Blue.Mani
+
+/-- **`cleanup_orphans` keeps every listed file**: on a chained manifest directory (what
+    `Manifest::verify` checks; it holds after every history of edits, rollovers, crashes and reopens —
+    `chain_holds` below — and for what the verifier leaves of it, `reopen_after_verifier`), the set
+    the scan collects holds no name the manifest state lists — whether the file was removed and
+    added by one edit, removed by one edit and re-added by a later one, or re-added in a later
+    fragment — so nothing listed is renamed to `trash/`. -/
+theorem cleanup_orphans_keeps_listed (sst trash : List Name) (frags : List (List Edit)) (hc : chainOk frags = true) :
+    (∀ x, x ∈ listed frags → x ∉ scan frags) ∧ (∀ x, x ∈ moved sst trash frags → x ∉ listed frags) :=
+  ⟨scan_clear_of_listed frags hc, moved_not_listed sst trash frags hc⟩
+
+/-- the hypothesis holds: after a crash at any system call of any history of manifest edits,
+    rollovers and reopens, under either persistence model, followed by the reopen's rollover, the
+    fragments are chained -/
+theorem chain_holds (h : List (Blue.ManiCrash.Client Edit)) (n : Nat) :
+    let fs := Blue.ManiCrash.run emptyFs ((Blue.ManiCrash.opsOf maniAlgebra h []).take n)
+    chainOk (fragments (Blue.ManiCrash.run (Blue.ManiCrash.crashA fs) (Blue.ManiCrash.reopenOps maniAlgebra (Blue.ManiCrash.crashA fs)))) = true
+    ∧ chainOk (fragments (Blue.ManiCrash.run (Blue.ManiCrash.crashB fs) (Blue.ManiCrash.reopenOps maniAlgebra (Blue.ManiCrash.crashB fs)))) = true :=
+  chain_after_crash_and_reopen h n
+
+/-- non-vacuity, and what the removal of the added names is for: `x` is removed by an edit of the
+    first fragment and added again by an edit of the second; the scan lets it be, a scan that only
+    collected removals would rename a listed file -/
+example : chainOk exA = true ∧ listed exA = [[120], [122]] ∧ scan exA = [[121]] ∧
+    ([120] ∈ scanNoReadd exA ∧ [120] ∈ listed exA) :=
+  ⟨exA_chain, exA_listed, exA_scan, exA_no_readd_scan_hits_listed⟩
+
+end Orphans
+
 end Blue.Props.C08
 
 #print axioms Blue.Props.C08.refcount_invariant_preserved
 #print axioms Blue.Props.C08.live_files_stay
 #print axioms Blue.Props.C08.crash_keeps_named_files
+#print axioms Blue.Props.C08.verifier_unlinks_only_logged_trash
+#print axioms Blue.Props.C08.plan_names_recorded_removals
+#print axioms Blue.Props.C08.verifier_acts_legal
+#print axioms Blue.Props.C08.verifier_never_removes_listed
+#print axioms Blue.Props.C08.verifier_crash_safe
+#print axioms Blue.Props.C08.verifier_crash_safe_any_restarts
+#print axioms Blue.Props.C08.reopen_after_verifier
+#print axioms Blue.Props.C08.cleanup_orphans_keeps_listed
+#print axioms Blue.Props.C08.chain_holds
+#print axioms Blue.Props.C08.linked_output_invariant
+#print axioms Blue.Props.C08.pinned_output_stays
+#print axioms Blue.Props.C08.unpinned_output_lost
